@@ -7,7 +7,7 @@ LEVEL = "model_checking"
 MANIFEST = {
     "engine": "tlc Blame histories + vhdag2 c46 + tlc BlameTrace",
     "technique": "TLC generates file histories (linear and merge, edits / moves / duplicates) and, for the determinate class, the exact Origin; go-git's Blame output for every commit of every history is recorded and judged in TLA+ by the admissibility predicate (batch trace validation); on the determinate and first-parent-determinate classes the TLA+ origin = go-git = git blame --porcelain is compared exactly",
-    "text": "For 5 hand-made and seeded generated histories (5 commits, <= 2 ordered parents, 5 instants; determinate: 10 fresh symbols, increasing versions; first-parent-determinate: 6 symbols, increasing versions, symbols introduced independently on several branches or re-introduced; arbitrary: 3 symbols with duplicates and moves): every blame go-git produces is admissible (one answer per line; the blamed commit and a parent path down to it contain the line; the blamed commit differs from each of its parents; no more copies blamed than it has); on determinate histories every line is attributed to the commit that introduced it, and on first-parent-determinate ones to the commit reached by git's rule (an identical parent takes all, else the first parent that has the line), which is also git's answer on every such blame. Theorems (Origin is admissible and blames ancestors only; self-blame is admissible iff the commit changed the file) are TLC invariants.",
+    "text": "For 5 hand-made and seeded generated histories (5 commits, <= 2 ordered parents, 5 instants; determinate: 10 fresh symbols, increasing versions; first-parent-determinate: 6 symbols, increasing versions, symbols introduced independently on several branches or re-introduced; diamonds: files of 6-8 positions x 3 variants per line where each side rewrites some lines and the merge takes either side's variant or restores the base text, so the common ancestor is reached through both parents with different overlapping needs; arbitrary: 3 symbols with duplicates and moves): every blame go-git produces is admissible (one answer per line; the blamed commit and a parent path down to it contain the line; the blamed commit differs from each of its parents; no more copies blamed than it has); on determinate histories every line is attributed to the commit that introduced it, and on first-parent-determinate ones to the commit reached by git's rule (an identical parent takes all, else the first parent that has the line), which is also git's answer on every such blame. Theorems (Origin is admissible and blames ancestors only; self-blame is admissible iff the commit changed the file) are TLC invariants.",
     "note": "Outside the (first-parent-)determinate classes (moves, duplicates) git's exact answer depends on diff heuristics and is not compared: only admissibility is decided there - the first sentence of the property is decided on histories whose versions are strictly increasing only. One file, no renames, no -M/-C, text lines without trailing-newline variations.",
 }
 
@@ -31,12 +31,13 @@ CHECK_DEADLOCK FALSE
 def run(ctx):
     import vlib
     rnd = random.Random(ctx.seed)
-    ndet, nany = (200, 200) if ctx.thorough else (20, 20)
-    nfp = 200 if ctx.thorough else 25
+    ndet, nany = (120, 150) if ctx.thorough else (15, 15)
+    nfp, ndia = (150, 150) if ctx.thorough else (20, 30)
     dk = [[rnd.randrange(1 << 20) for _ in range(5)] for _ in range(ndet)]
     ak = [[rnd.randrange(1 << 20) for _ in range(5)] for _ in range(nany)]
     fk = [[rnd.randrange(1 << 20) for _ in range(4)] for _ in range(nfp)]
-    items = ["FPHist(<<%s>>)" % ", ".join(map(str, k)) for k in fk] + ["DetHist(<<%s>>)" % ", ".join(map(str, k)) for k in dk] + ["AnyHist(<<%s>>)" % ", ".join(map(str, k)) for k in ak]
+    xk = [[rnd.randrange(1 << 20) for _ in range(6)] for _ in range(ndia)]
+    items = ["DiamondHist(<<%s>>)" % ", ".join(map(str, k)) for k in xk] + ["FPHist(<<%s>>)" % ", ".join(map(str, k)) for k in fk] + ["DetHist(<<%s>>)" % ", ".join(map(str, k)) for k in dk] + ["AnyHist(<<%s>>)" % ", ".join(map(str, k)) for k in ak]
     mod = "---- MODULE MCBlameGen ----\nEXTENDS MCBlame\nMCHists == MCFixedH \\o <<%s>>\n====\n" % ", ".join(items)
     r = ctx.tlc("MCBlameGen", cfg="Blame_gen.cfg", cfg_text=CFG, files={"MCBlameGen.tla": mod}, workers=4, timeout=1800)
     hist = os.path.join(r.dir, "blame_hist.ndjson")
@@ -61,8 +62,8 @@ def run(ctx):
                     {"history": b["h"], "at": b["at"], "gogit": b["out"], "par": h["par"], "ver": h["ver"], "tm": h["tm"], "determinate": h["det"]})
     ctx.cov["traces_validated_against_impl"] = cnt[0]["n"]
     ctx.cov["inadmissible"] = len(bad)
-    ctx.cov["bounds"] = {"fixed_histories": 5, "determinate_keys": ndet, "first_parent_determinate_keys": nfp, "arbitrary_keys": nany, "commits": 5, "max_parents": 2,
-                         "symbols": {"determinate": 10, "arbitrary": 3}, "max_lines": 10}
+    ctx.cov["bounds"] = {"fixed_histories": 6, "determinate_keys": ndet, "first_parent_determinate_keys": nfp, "diamond_keys": ndia, "arbitrary_keys": nany, "commits": 5, "max_parents": 2,
+                         "symbols": {"determinate": 10, "arbitrary": 3}, "max_lines": 10, "diamond_file_lines": "6-8 positions x 3 variants"}
     ctx.cov["exhaustive"] = False
     ctx.cov["rule"] = ("one TLC state per (history, blamed commit); histories decoded in TLA+ from seeded keys; distinct = distinct histories; "
                        "every recorded go-git blame is judged by Blame!Admissible in a second TLC run; determinate histories are also compared exactly with Origin and git blame")
